@@ -152,7 +152,10 @@ def parse_segments(text, version=None, encoding_chars=None, validation_level=Non
             segment_name = s[:3]
             for x in xrange(len(parents_refs)):
                 if not find_groups:
-                    segment = parse_segment(s.strip(), version, encoding_chars, validation_level)
+                    # no groups are built, but the structure (a message profile, for instance) still says
+                    # how the segment is made
+                    ref = _get_segment_reference(segment_name, [(None, references)])[0] if references else None
+                    segment = parse_segment(s.strip(), version, encoding_chars, validation_level, ref)
                     segments.append(segment)
                 else:
                     ref, parents_refs = _get_segment_reference(segment_name, parents_refs)
